@@ -12,6 +12,37 @@ NOT_APPLICABLE = {}
 HOOK_COMMITS = []
 
 CHECKS = {
+    "C13": {
+        "run": "^TestC13_",
+        "race": True,
+        "rule": ("cases = concurrent scenarios compiled with -race and run with quiet observers: every multi-producer stage of C02 (alone and with stages below), the five subject kinds under "
+                 "{several producers + state getters, subscribe/unsubscribe churn, racing terminals}, every Share configuration and connectable under concurrent subscribe / unsubscribe / "
+                 "Connect / disconnect / emission, one subscriber under Add | Next | Unsubscribe | terminal | Wait. All scenarios have >= 2 goroutines inside library code (non-trivial); "
+                 "distinct by scenario descriptor. race_detector in the coverage gives the number of reports and of distinct access pairs seen."),
+        "quick": {"rapid": 20, "timeout": 600, "shards": 8},
+        "thorough": {"rapid": 200, "timeout": 3400, "shards": 16},
+        "assumptions": COMMON_ASSUMPTIONS + ["the Go race detector (go1.26.8 -race) is the oracle: a report with a library frame in either access is a violation, a report with harness frames only is a harness bug (exit 2)"],
+        "technique": "generated concurrent scenarios executed under the Go race detector over many repetitions; reports classified by the innermost library function of each conflicting access",
+        "level_text": ("Exploration. The concurrent scenarios generated for C02, C03, C10 and C11 are executed in a -race build with observers that add no synchronisation of their own; every "
+                       "race report is attributed to the library functions of the two conflicting accesses. Any pair that is not a listed finding is a violation."),
+        "level_note": "The detector only sees executed interleavings: no report is not race freedom. One listed finding (close vs send in ObserveOn/SubscribeOn).",
+    },
+    "C02": {
+        "run": "^TestC02_",
+        "rule": ("cases = (multi-producer stage {merge, combine-latest, zip, race, take/skip-until, buffer/sample/throttle-when, concat, Serialize over a multi-goroutine producer, MergeMap, "
+                 "GroupBy|MergeAll, WindowWhen|MergeAll, Merge of ObserveOn hand-offs, Share}, number of producers 2-6 each driven by exactly one goroutine, the stages placed below it "
+                 "{none, unsafe rows, pass-through rows that hand their destination upstream, Serialize}, scripts with and without terminals, observer dwell), each repeated. "
+                 "Every case has >= 2 concurrently emitting producers (non-trivial); distinct by (stage, below, k, script shape, dwell) hash."),
+        "quick": {"rapid": 40, "timeout": 300, "shards": 8},
+        "thorough": {"rapid": 600, "timeout": 3000, "shards": 16},
+        "assumptions": COMMON_ASSUMPTIONS,
+        "technique": "schedule exploration by repetition with a dwelling observer; oracle = online overlap monitor (inside-counter and nested enter/exit stamps) + grammar automaton",
+        "level_text": ("Exploration. Each producer goroutine drives its own sequential source; all start on a barrier; the bottom observer sleeps a few tens of microseconds in every "
+                       "callback so that any missing serialisation shows as two callbacks inside at once. Checked for every multi-producer stage alone and with unsafe / pass-through / "
+                       "Serialize stages below it, 12 (quick) / 150 (thorough) repetitions per configuration plus rapid-generated configurations. Subjects and the safe "
+                       "constructors under many producers are covered by the concurrent parts of C01 and C10."),
+        "level_note": "Statistical: absence of overlap in the repetitions run is not absence in all schedules; the dwell makes a wrong subscriber mode show within a few repetitions.",
+    },
     "C05": {
         "run": "^TestC05_",
         "rule": ("cases = (multi-source row and form, number of sources k, one script per source, one interleaving of those scripts); every tuple of scripts and every interleaving "
